@@ -126,6 +126,17 @@ func init() {
 			}
 		}
 		out.Data["der_edge_last_bytes"] = len(edge)
+		// one certificate of every shape of the to-be-signed part: each version (a version 1 certificate has no version
+		// field, so its first element is the serial number), with and without unique identifiers, with and without extensions
+		shapes := map[string]bool{}
+		for _, cc := range corpus.Certs {
+			k := fmt.Sprintf("v%d/uid=%v/ext=%v", cc.Cert.Version, cc.Cert.IssuerUniqueId.Bytes != nil || cc.Cert.SubjectUniqueId.Bytes != nil, len(cc.Cert.Extensions) > 0)
+			if !shapes[k] {
+				shapes[k] = true
+				certs = append(certs, cc)
+			}
+		}
+		out.Data["tbs_shapes"] = len(shapes)
 		invocations := 0
 		addCase := func(flag, path string, pemBlk *pem.Block, b64ok *bool, rawOK bool, observed int, desc map[string]interface{}) {
 			pemC := "None"
